@@ -27,10 +27,10 @@ Why(ev) ==
   ELSE IF ev.ev = "of" THEN
      IF ~ev.res.okp THEN <<"of-none">>
      ELSE IF SameIRI(ev.res, OfRule(ev.id, ev.c, ev.explicit)) THEN <<>>
-     ELSE IF ev.explicit.k = "none" THEN <<"built-wrong">> ELSE <<"explicit-ignored">>
+     ELSE IF Absent(ev.explicit) THEN <<"built-wrong">> ELSE <<"explicit-ignored">>
   ELSE IF ev.ev = "addto" THEN        \* CollectionPath.AddTo: sets the built IRI only where the property exists and is unset
      IF ~HasProp(ev.kind, ev.c) THEN (IF ev.status THEN <<"addto-claims-success-without-property">> ELSE <<>>)
-     ELSE IF ev.explicit.k = "none" THEN
+     ELSE IF Absent(ev.explicit) THEN
           (IF ev.status THEN <<>> ELSE <<"addto-refused-unset">>)
           \o (IF ev.res.okp /\ SameIRI(ev.res, Join(ev.id, ev.c)) THEN <<>> ELSE <<"addto-wrong-iri">>)
           \o (IF ev.after.okp /\ SameIRI(ev.after, Join(ev.id, ev.c)) THEN <<>> ELSE <<"addto-property-not-set">>)
